@@ -47,11 +47,10 @@ func (*requestCodec) HandleRead(ctx netty.InboundContext, message netty.Message)
 				return
 			}
 			// the handler may have left (part of) the body unread: skip it, otherwise its bytes
-			// would be parsed as the next request
+			// would be parsed as the next request. Close discards what is left of the body and is
+			// harmless if the handler has closed the body already.
 			if nil != request.Body {
-				_, err = io.Copy(io.Discard, request.Body)
-				utils.Assert(err)
-				_ = request.Body.Close()
+				utils.Assert(request.Body.Close())
 			}
 		}
 	default:
